@@ -4,8 +4,6 @@ theorem enfPack_eq {n i l : Nat} (hn : n < 2 ^ EPOCH_NUMBER_BITS) (hi : i < 2 ^ 
     enfPack n i l = l * 2 ^ 40 + i * 2 ^ 24 + n := by
   unfold enfPack LENGTH_OFFSET INDEX_OFFSET NUMBER_OFFSET U64
   simp only [EPOCH_NUMBER_BITS, EPOCH_INDEX_BITS, EPOCH_LENGTH_BITS, Nat.pow_zero, Nat.mul_one, Nat.reduceAdd] at *
-  trace_state
   have h1 : l * 2 ^ 40 % 2 ^ 64 = l * 2 ^ 40 := by
-    clear hn hi
     omega
   sorry
